@@ -43,11 +43,15 @@ CONSTANTS Peers,        \* peer names
           Silence,      \* background ticker interval in units; 0 = ticker never fires in the horizon
           HasForce,     \* include ForceTrim
           DecayMax,     \* bound of the decaying tag "d" (BumpSumBounded(0, DecayMax), DecayFixed(1)); 0 = none
-          DecayEvery    \* decay interval of "d" in units (the decayer's resolution is one unit)
+          DecayEvery,   \* decay interval of "d" in units (the decayer's resolution is one unit)
+          Split,        \* concurrent variant: TrimOpenConns as two steps (Collect, Select) with notifications,
+                        \* tag and protection calls of other goroutines in between
+          MaxBurst      \* at most this many foreign steps inside one trim
 
 \* the decayer's ticker and the manager's background ticker would fire at the same mock instant in an
 \* order the code does not fix: the bounded instances use one or the other
 ASSUME DecayMax = 0 \/ Silence = 0
+ASSUME Split => DecayMax = 0
 
 NoTag == 0 - 1
 MaxVal == CHOOSE v \in Vals : \A w \in Vals : w <= v
@@ -62,10 +66,13 @@ VARIABLES kind,    \* [Peers -> {"n","t","c"}]  not tracked / temporary entry (e
           phase,   \* units since the last background ticker fire (0 when Silence = 0)
           dec,     \* [Peers -> 1..DecayMax \cup {NoTag}]  value of the decaying tag "d"
           dph,     \* units since the decaying tag's last visit round
+          tr,      \* the trim in progress (concurrent variant): candidates collected, those whose entry has
+                   \* been deleted since (the trim still holds the stale peerInfo), target, foreign steps so far
           op       \* output only
 
-vars == <<kind, cs, tg, val, age, prot, count, phase, dec, dph, op>>
-View == <<kind, cs, tg, val, age, prot, count, phase, dec, dph>>
+vars == <<kind, cs, tg, val, age, prot, count, phase, dec, dph, tr, op>>
+View == <<kind, cs, tg, val, age, prot, count, phase, dec, dph, tr>>
+TrOff == [on |-> FALSE, c |-> {}, s |-> {}, n |-> 0, b |-> 0]
 
 RECURSIVE SumF(_, _)
 SumF(f, S) == IF S = {} THEN 0 ELSE LET x == CHOOSE x \in S : TRUE IN f[x] + SumF(f, S \ {x})
@@ -85,6 +92,7 @@ Init == /\ kind = [p \in Peers |-> "n"]
         /\ phase = 0
         /\ dec = [p \in Peers |-> NoTag]
         /\ dph = 0
+        /\ tr = TrOff
         /\ op = [name |-> "init"]
 
 ----------------------------------------------------------------------------
@@ -278,13 +286,49 @@ ForceTrim ==
   /\ op' = [name |-> "forcetrim", allowed |-> ForceAllowed, info |-> TrimInfo(age)]
 
 ----------------------------------------------------------------------------
-Next == \/ \E c \in Conns : Connected(c) \/ Disconnected(c)
-        \/ \E p \in TagPeers, t \in Tags : (\E v \in Vals : Tag(p, t, v)) \/ Untag(p, t) \/ Upsert(p, t)
-        \/ \E p \in TagPeers : Bump(p) \/ DRemove(p)
-        \/ \E p \in Peers : \E x \in ProtTagsOf[p] : Protect(p, x) \/ Unprotect(p, x)
-        \/ Tick
-        \/ Trim
-        \/ ForceTrim
+(* Concurrent variant.  getConnsToClose collects *peerInfo pointers under the segment locks, sorts them *)
+(* (taking and releasing pairs of segment locks) and then walks the sorted list; other goroutines get   *)
+(* in between.  A candidate whose entry is deleted meanwhile (last Disconnected) stays in the list as a  *)
+(* STALE object without connections, and keeps being stale when the peer comes back under a new entry:  *)
+(* the selection must leave the new entry alone.  With foreign steps in between, the comparison sees     *)
+(* changing keys, so neither the closed set nor which expired temporary entries are reached is pinned:   *)
+(* Select may prune any subset of the candidates that are STILL temporary (never a stale one).          *)
+
+Collect ==
+  /\ Split /\ ~tr.on /\ TrimRuns(age)
+  /\ tr' = [on |-> TRUE, c |-> Cands(age), s |-> {}, n |-> Target(age), b |-> 0]
+  /\ UNCHANGED <<kind, cs, tg, val, age, prot, count, phase, dec, dph>>
+  /\ op' = [name |-> "collect", cands |-> Cands(age), target |-> Target(age)]
+
+MayPrune == IF tr.n > 0 THEN { p \in tr.c \ tr.s : kind[p] = "t" } ELSE {}
+
+Select ==
+  /\ tr.on
+  /\ \E P \in SUBSET MayPrune :
+        /\ ApplyPrune(P, age, dec)
+        /\ op' = [name |-> "select", pruned |-> P, mayprune |-> MayPrune, stale |-> tr.s]
+  /\ tr' = TrOff
+  /\ UNCHANGED <<cs, prot, count, phase, dph>>
+
+\* calls other goroutines may make at any time
+Foreign == \/ \E c \in Conns : Connected(c) \/ Disconnected(c)
+           \/ \E p \in TagPeers, t \in Tags : (\E v \in Vals : Tag(p, t, v)) \/ Untag(p, t) \/ Upsert(p, t)
+           \/ \E p \in Peers : \E x \in ProtTagsOf[p] : Protect(p, x) \/ Unprotect(p, x)
+
+Gone == { p \in Peers : kind[p] # "n" /\ kind'[p] = "n" }
+
+Next == \/ /\ ~tr.on
+           /\ \/ Foreign
+              \/ \E p \in TagPeers : Bump(p) \/ DRemove(p)
+              \/ Tick
+              \/ Trim
+              \/ ForceTrim
+           /\ UNCHANGED tr
+        \/ /\ tr.on /\ tr.b < MaxBurst
+           /\ Foreign
+           /\ tr' = [tr EXCEPT !.s = @ \cup (Gone \cap tr.c), !.b = @ + 1]
+        \/ Collect
+        \/ Select
 
 Spec == Init /\ [][Next]_vars
 
@@ -298,6 +342,7 @@ TypeOK == /\ \A p \in Peers : /\ kind[p] \in {"n", "t", "c"}
                               /\ \A t \in Tags : tg[p][t] \in Vals \cup {NoTag}
                               /\ dec[p] \in (1..DecayMax) \cup {NoTag}
           /\ count \in 0..Cardinality(Conns)
+          /\ tr.s \subseteq tr.c /\ tr.c \subseteq Peers /\ (~tr.on => tr = TrOff)
 
 \* an entry has connections iff it is a connected entry; an untracked peer carries nothing
 Shape == \A p \in Peers : /\ (kind[p] = "c") <=> (cs[p] # {})
@@ -337,6 +382,13 @@ ForceTrimOrder ==
 TrimInert == [][op'.name \in {"trim", "forcetrim"} => UNCHANGED <<cs, prot, count>>
                   /\ \A p \in Peers : kind[p] = "c" => (kind'[p] = "c" /\ tg'[p] = tg[p] /\ val'[p] = val[p] /\ dec'[p] = dec[p])]_vars
 
+\* the selection of a trim in progress changes nothing but still-temporary candidates, whatever happened
+\* since the collection (in particular it never touches the new entry of a candidate that went and came back)
+SelectInert == [][op'.name = "select" =>
+                    /\ UNCHANGED <<cs, prot, count>>
+                    /\ \A p \in Peers : (kind[p] = "c" \/ p \in tr.s \/ p \notin tr.c) =>
+                          (kind'[p] = kind[p] /\ tg'[p] = tg[p] /\ val'[p] = val[p] /\ age'[p] = age[p])]_vars
+
 (* reachability probes (expected to be violated): vacuity guards *)
 ReachTie        == [][~(IsTrim /\ Cardinality(op'.allowed) > 1)]_vars
 ReachClose      == [][~(IsTrim /\ op'.allowed # {{}})]_vars
@@ -344,4 +396,6 @@ ReachGraceSkip  == [][~(IsTrim /\ count > Low /\ op'.info.grace # {} /\ op'.allo
 ReachProtSkip   == [][~(IsTrim /\ count > Low /\ WithConns(op'.info.prot) # {} /\ op'.allowed # {{}})]_vars
 ReachForceProt  == [][~(op'.name = "forcetrim" /\ \E S \in op'.allowed : S \cap op'.info.prot # {})]_vars
 ReachPrune      == [][~(IsTrim /\ op'.pruned # {})]_vars
+\* a candidate went and came back inside a trim
+ReachStaleBack  == [][~(op'.name = "select" /\ \E p \in tr.s : kind[p] = "c")]_vars
 =============================================================================
